@@ -1169,7 +1169,10 @@ impl<'a> Searcher<'a> {
             },
             Field::IsFile => match file_info {
                 Some(file_info) => {
-                    return Variant::from_bool(!file_info.name.ends_with('/'));
+                    return Variant::from_bool(match file_info.mode {
+                        Some(mode) if mode::mode_has_file_type(mode) => mode::mode_is_regular_file(mode),
+                        _ => !file_info.name.ends_with('/'),
+                    });
                 }
                 _ => {
                     self.fms
@@ -1181,8 +1184,8 @@ impl<'a> Searcher<'a> {
                 }
             },
             Field::IsSymlink => match file_info {
-                Some(_) => {
-                    return Variant::from_bool(false);
+                Some(file_info) => {
+                    return Variant::from_bool(file_info.mode.is_some_and(mode::mode_is_link));
                 }
                 _ => {
                     self.fms
